@@ -3178,6 +3178,10 @@ impl Connection {
             Timer::PathValidation,
             now + 3 * cmp::max(self.pto(SpaceId::Data), prev_pto),
         );
+        // The loss detection timer was armed for packets in flight on the previous path. Nothing is
+        // in flight on the new one yet, so recompute it, as `PathValidation` expiry does when it
+        // switches back.
+        self.set_loss_detection_timer(now);
     }
 
     /// Handle a change in the local address, i.e. an active migration
